@@ -1266,11 +1266,12 @@ class Interp:
             if o == "==":
                 return a is b
             if o == "!=":
-                if isinstance(a, Obj):
-                    m, _ = a.cls.find("__eq__")
-                    if m is not None:
-                        r = self.call_function(m, [a, b], {})
-                        return Not(r) if is_sym(r) else not r
+                for x, y in ((a, b), (b, a)):
+                    if isinstance(x, Obj):
+                        m, _ = x.cls.find("__eq__")
+                        if m is not None:
+                            r = self.call_function(m, [x, y], {})
+                            return Not(r) if is_sym(r) else not r
                 return a is not b
             raise PyRaise("TypeError", f"{o} not supported between objects")
         if isinstance(a, SymSeq) or isinstance(b, SymSeq):
